@@ -102,6 +102,76 @@ Theorem C18_pool_rounded_same : forall w n cs, 1 <= w -> cs mod w = 0 ->
 Proof. exact pool_rounded_same. Qed.
 Print Assumptions C18_pool_rounded_same.
 
+(* ---------------- reader history: a pass does not depend on what was done with the reader before ---------------- *)
+(* the public reader object as a state machine over iter() / k x next() / complete pass (Model/ChunksBuf.v);
+   whatever the history h (peeks, aborted passes, previews, nested loops, probes, earlier complete passes),
+   the next complete pass requests exactly the model's slices ... *)
+Theorem C18_history_pass_requests : forall n cs h,
+  off_trace n cs (h ++ [RdPass]) = off_trace n cs h ++ [slices n cs].
+Proof. exact history_pass_requests. Qed.
+Print Assumptions C18_history_pass_requests.
+
+(* ... hence every record once, in consecutive slices of 1..cs ... *)
+Theorem C18_history_pass_covers : forall n cs h, 1 <= cs ->
+  let q := last (off_trace n cs (h ++ [RdPass])) [] in
+  concat (map range q) = seq 0 n /\ Forall (fun se => 1 <= slice_len se <= cs /\ snd se <= n) q.
+Proof. exact history_pass_covers. Qed.
+Print Assumptions C18_history_pass_covers.
+
+(* ... and the same holds for every pass inside a history, from any state at all *)
+Theorem C18_history_every_pass : forall n cs ops st,
+  Forall2 (fun op q => op = RdPass -> q = slices n cs) ops
+          (rd_trace 0 (off_next n cs) rewinds_always n st ops).
+Proof. exact history_every_pass. Qed.
+Print Assumptions C18_history_every_pass.
+
+(* the variant `iter() rewinds only an exhausted reader`: indistinguishable on histories of complete passes
+   (fresh readers, get_probe, the Catalog.from_* routes) ... *)
+Theorem C18_lazy_rewind_same_on_complete_passes : forall n cs ops, 1 <= cs ->
+  Forall (fun op => op = RdPass) ops -> off_trace_lazy n cs ops = off_trace n cs ops.
+Proof. exact lazy_same_on_complete_passes. Qed.
+Print Assumptions C18_lazy_rewind_same_on_complete_passes.
+
+(* ... but false: after a peek next(iter(reader)) the pass never requests the first record, for every source
+   longer than a chunk; more generally from every partially consumed state *)
+Theorem C18_lazy_rewind_refuted : forall n cs, 1 <= cs -> cs < n ->
+  exists q, off_trace_lazy n cs [RdIter; RdNext 1; RdPass] = [[]; [(0, cs)]; q]
+            /\ ~ In 0 (concat (map range q)) /\ q <> slices n cs.
+Proof. exact lazy_refuted. Qed.
+Print Assumptions C18_lazy_rewind_refuted.
+
+Theorem C18_lazy_rewind_misses_start : forall n cs st, 0 < st -> st < n ->
+  ~ In 0 (concat (map range (snd (rd_step 0 (off_next n cs) (off_rewinds_exhausted n) n st RdPass)))).
+Proof. exact lazy_pass_misses_start. Qed.
+Print Assumptions C18_lazy_rewind_misses_start.
+
+(* Parquet: cursor and row-group cache are part of the state; every pass of every history requests the row groups
+   and delivers the chunks of a fresh reader *)
+Theorem C18_parquet_history_every_pass : forall (A : Type) cs (groups : list (list A)) ops st,
+  let n := length (concat groups) in
+  Forall2 (fun op q => op = RdPass ->
+             map fst q = parquet_request_trace cs groups /\ map snd q = chunks cs (concat groups)) ops
+          (rd_trace (pq_init groups) (pq_next n cs) rewinds_always n st ops).
+Proof. exact @pq_history_every_pass. Qed.
+Print Assumptions C18_parquet_history_every_pass.
+
+Example C18_history_concrete :
+  off_trace 10 4 [RdIter; RdNext 1; RdPass; RdIter; RdNext 2; RdNext 5; RdNext 1; RdPass]
+    = [[]; [(0,4)]; [(0,4);(4,8);(8,10)]; []; [(0,4);(4,8)]; [(8,10)]; []; [(0,4);(4,8);(8,10)]]
+  /\ off_trace_lazy 10 4 [RdIter; RdNext 1; RdPass] = [[]; [(0,4)]; [(4,8);(8,10)]]
+  /\ c18_hist_case 10 4 [RdIter; RdNext 1; RdPass] [[]; [(0,4)]; [(0,4);(4,8);(8,10)]] true true = 0
+  /\ c18_hist_case 10 4 [RdIter; RdNext 1; RdPass] [[]; [(0,4)]; [(4,8);(8,10)]] true false = 11
+  /\ c18_hist_sizes_case 10 4 [RdNext 1; RdPass] [[4]; [4;4;2]] true = 0
+  /\ map (map fst) (pq_trace 4 [[1;2;3];[4;5;6];[7;8;9];[10]] [RdIter; RdNext 1; RdPass])
+       = [[]; [[0;1]]; [[0;1];[2];[3]]]
+  /\ map (map snd) (pq_trace_lazy 4 [[1;2;3];[4;5;6];[7;8;9];[10]] [RdIter; RdNext 1; RdPass])
+       = [[]; [[1;2;3;4]]; [[5;6;7;8];[9;10]]]
+  /\ c18_pq_hist_case 4 [3;3;3;1] [RdIter; RdNext 1; RdPass] [[]; [0;1]; [0;1;2;3]]
+                      [None; Some [4]; Some [4;4;2]] true = 0
+  /\ c18_pq_hist_case 4 [3;3;3;1] [RdIter; RdNext 1; RdPass] [[]; [0;1]; [2;3]]
+                      [None; Some [4]; Some [4;2]] false = 15.
+Proof. vm_compute. repeat split; reflexivity. Qed.
+
 Example C18_pool_concrete :
   pool_steps 3 10 4 = [((0,4),[2;1;1]); ((4,8),[2;1;1]); ((8,10),[1;1;0])]
   /\ map fst (pool_steps_rounded 3 10 4) = [(0,6); (6,10)]
